@@ -1,5 +1,6 @@
-from checks import scan, text, hexre, cond, shortcuts, externals, arena, company, hashmath
+from checks import scan, text, hexre, cond, shortcuts, externals, arena, company, hashmath, faults
 CHECKS = {
+    "C16": faults.c16,
     "C14": hashmath.c14,
     "C05": company.c05,
     "C08": arena.c08,
